@@ -635,10 +635,19 @@ func checkMergedView(p *Program, r *Report) {
 			okAll := true
 			for i := 0; i < ist.NumFields(); i++ {
 				f := ist.Field(i)
-				addr := mk("field", a.iterT.Obj().Name()+"."+f.Name(), nil, it)
+				addr := mk("field", a.iterT.Obj().Name()+"."+fname(f), nil, it)
 				cl, has := s.St.mem[addr.key]
 				if b, ok := f.Type().Underlying().(*types.Basic); ok && b.Kind() == types.Bool {
-					want := mk("init", "", nil, mk("field", "Merged."+f.Name(), nil, m))
+					// the view's flag: the boolean field of the Merged type
+					viewFlag := fname(f)
+					if mst, ok := p.namedType("Merged").Underlying().(*types.Struct); ok {
+						for j := 0; j < mst.NumFields(); j++ {
+							if bb, ok := mst.Field(j).Type().Underlying().(*types.Basic); ok && bb.Kind() == types.Bool {
+								viewFlag = fname(mst.Field(j))
+							}
+						}
+					}
+					want := mk("init", "", nil, mk("field", "Merged."+viewFlag, nil, m))
 					if !has || cl.val != want {
 						got := "<unset>"
 						if has {
